@@ -118,7 +118,7 @@ func checkRoundTrip(c rtCase) (fw.Outcome, *fw.Violation) {
 	if why := c.malformed(); why != "" {
 		return fw.Outcome{Discard: true}, nil
 	}
-	o := c.outcome()
+	o := c.outcome(true)
 	if k := c.knownShape(); k != "" {
 		o.Classes = append(o.Classes, "knownshape:"+k)
 	}
@@ -178,11 +178,11 @@ func checkRoundTrip(c rtCase) (fw.Outcome, *fw.Violation) {
 	return o, nil
 }
 
-const rtRule = "table (1-4 columns, 0-6 rows; cells and 45% of the header names concatenated from a token alphabet: letters, digits, blank, , ; | TAB, \" ' ` \\, LF CR CRLF, colon, 2/3/4-byte UTF-8, full-width, combining, empty, NULL; 9% repeated past 4 KiB / 64 KiB) x {CSV(, ; | TAB), TSV, LTSV, FIXED(auto, explicit, single line), JSON, JSONL} x {UTF8, UTF8M, UTF16, UTF16BE/LE, UTF16BEM/LEM, SJIS (JSON: UTF8)} x {LF, CRLF, CR} x enclose-all x without-header x strip-ending-line-break x json-escape x pretty-print; 15% of the cases may contain texts the format cannot spell; non-trivial = a written text with a delimiter, quote, line break, tab, colon, edge blank or non-ASCII rune, or a non-default dialect; distinct by (format, delimiter/fixed mode, encoding, line break, flags, set of special classes)"
+const rtRule = "table (1-4 columns, 0-6 rows; cells and 45% of the header names concatenated from a token alphabet: letters, digits, blank, , ; | TAB, \" ' ` \\, LF CR CRLF, colon, 2/3/4-byte UTF-8, full-width, combining, empty, NULL; 6% repeated past 4 KiB / 64 KiB) x {CSV(, ; | TAB), TSV, LTSV, FIXED(auto, explicit, single line), JSON, JSONL} x {UTF8, UTF8M, UTF16, UTF16BE/LE, UTF16BEM/LEM, SJIS (JSON: UTF8)} x {LF, CRLF, CR} x enclose-all x without-header x strip-ending-line-break x json-escape x pretty-print; 15% of the cases may contain texts the format cannot spell; non-trivial = a written text with a delimiter, quote, line break, tab, colon, edge blank or non-ASCII rune, or a non-default dialect; distinct by (format, delimiter/fixed mode, encoding, line break, flags, set of special classes)"
 
 func TestC02RoundTripInproc(t *testing.T) {
 	fw.Run(t, fw.Spec[rtCase]{
-		ID: "C02", Name: "roundtrip_inproc", Quick: 14000, Thorough: 280000,
+		ID: "C02", Name: "roundtrip_inproc", Quick: 30000, Thorough: 600000,
 		Gen: genRoundTrip, Check: checkRoundTrip,
 		Rule: rtRule + "; oracle: query.EncodeView either refuses (error, zero bytes written; a table spellable by the harness's own per-format predicate must not be refused) or the bytes, terminated as the manual describes and stored as a file, load back through SELECT * (import flags or the CSV()/FIXED()/LTSV()/JSON()/JSONL() table objects, same settings) with the same record count, field count, header and cell texts (NULL = \"\" where the format has one spelling, FIXED modulo edge blanks)",
 		Assumptions: []string{
@@ -445,7 +445,7 @@ func checkIndependent(c rtCase) (fw.Outcome, *fw.Violation) {
 	if why := c.malformed(); why != "" {
 		return fw.Outcome{Discard: true}, nil
 	}
-	o := c.outcome()
+	o := c.outcome(false)
 	out, encErr, herr := encodeInproc(c)
 	if herr != nil {
 		return o, fw.Harness("%v", herr)
@@ -473,7 +473,7 @@ func checkIndependent(c rtCase) (fw.Outcome, *fw.Violation) {
 
 func TestC02IndependentReaders(t *testing.T) {
 	fw.Run(t, fw.Spec[rtCase]{
-		ID: "C02", Name: "independent_readers", Quick: 14000, Thorough: 280000,
+		ID: "C02", Name: "independent_readers", Quick: 30000, Thorough: 600000,
 		Gen: genRoundTrip, Check: checkIndependent,
 		Rule: rtRule + "; oracle: the bytes of query.EncodeView are decoded by the harness's own strict decoder (byte order mark exactly as the encoding name says) and read by readers that share no code with csvq: an RFC 4180 state machine plus Go's encoding/csv (CSV/TSV), encoding/json with member order and duplicate detection (JSON/JSONL), a label:value splitter (LTSV) and a byte-column cutter over the harness's own width model (FIXED): same shape, same texts, every record line break is the configured one, enclose-all encloses every text",
 		Assumptions: []string{"cases csvq refuses, and accepted cases the harness's predicate calls unspellable, are left to roundtrip_inproc",
